@@ -58,7 +58,7 @@ def V(prop, rule, step, msg="", key=None, **attrs):
 
 class StepCtx:
     __slots__ = ("k", "T", "dt", "prev", "nxt", "env", "reports", "by_type", "spy", "applied", "traversals", "fired",
-                 "ext_ops", "instructions", "accepted", "instructed", "run", "rp_before", "rp_after")
+                 "ext_ops", "instructions", "accepted", "instructed", "run", "rp_before", "rp_after", "step_io")
 
     def reports_of(self, rt):
         return self.by_type.get(rt, ())
@@ -240,6 +240,7 @@ def execute(plan, oracles=(), generate=False, keep_states=False, on_loaded=None,
         run.stats["buggify_bindings"] = seams.install_buggify()
     have_rec = seams.install_traverse_recorder() if rs.get("recorder") else False
     have_app = seams.install_apply_recorder()
+    have_step = seams.install_step_recorder() if rs.get("step_recorder") else False
     d = world.materialise(plan["spec"])
     run.dir = d
     spy_log = []
@@ -285,6 +286,7 @@ def execute(plan, oracles=(), generate=False, keep_states=False, on_loaded=None,
             del spy_log[:]
             del seams.TRAVERSALS[:]
             del seams.APPLIED[:]
+            del seams.STEP_IO[:]
             nb0 = len(cap.batches)
             try:
                 rp2 = step_fn(run, rp) if step_fn else hive_cosim.crank(rp, 1).runner_payload
@@ -312,6 +314,7 @@ def execute(plan, oracles=(), generate=False, keep_states=False, on_loaded=None,
             ctx.spy = list(spy_log)
             ctx.applied = list(seams.APPLIED) if have_app else None
             ctx.traversals = list(seams.TRAVERSALS) if have_rec else None
+            ctx.step_io = seams.STEP_IO[0] if (have_step and seams.STEP_IO) else None
             ctx.fired = fired
             ctx.ext_ops = ext_ops
             ctx.run = run
